@@ -142,6 +142,16 @@ def r_printers_pure(repo, rep, R1='R18.1', R2='R18.2', consequence='a later rend
     return n
 
 
+def r_token_accessors(repo, rep, R, consequence=''):
+    """reading a token changes nothing on it: no accessor of Token (other than the constructor) stores into the token"""
+    tok = repo.module('depccg/types.py').get('Token')
+    for s in tok.body:
+        if isinstance(s, ast.FunctionDef) and s.name != '__init__' and not any('classmethod' in src(d) or 'staticmethod' in src(d) for d in s.decorator_list):
+            muts = effects.mutations(s, {'self'})
+            rep.check(not muts, R, 'depccg/types.py:%s Token.%s' % (s.lineno, s.name), 'types.py:Token.%s:mutates' % s.name,
+                      'Token.%s does not modify the token' % s.name, 'Token.%s modifies the token%s' % (s.name, (': ' + consequence) if consequence else ''))
+
+
 def check(repo, rep, tier):
     rep.rule('R18.1', 'no store / delete / mutating method on a value that may be (or contain) a caller-visible object, in any printer function')
     rep.rule('R18.2', 'Tree stores attributes only in __init__; printers write no module-level state')
@@ -242,9 +252,4 @@ def check(repo, rep, tier):
             rep.check(not stores, 'R18.2', '%s:%s Tree.%s' % (tm.rel, s.lineno, s.name), '%s:Tree.%s:self-store' % (tm.rel, s.name),
                       'Tree.%s stores nothing on the tree' % s.name, 'Tree.%s assigns %s' % (s.name, [src(x) for x in stores]))
     rep.floor('Tree accessors analysed', nacc, 15)
-    tok = repo.module('depccg/types.py').get('Token')
-    for s in tok.body:
-        if isinstance(s, ast.FunctionDef) and s.name != '__init__' and not any('classmethod' in src(d) or 'staticmethod' in src(d) for d in s.decorator_list):
-            muts = effects.mutations(s, {'self'})
-            rep.check(not muts, 'R18.2', 'depccg/types.py:%s Token.%s' % (s.lineno, s.name), 'types.py:Token.%s:mutates' % s.name,
-                      'Token.%s does not modify the token' % s.name, 'Token.%s modifies the token' % s.name)
+    r_token_accessors(repo, rep, 'R18.2')
